@@ -75,13 +75,13 @@ pub fn run(prop: &str, ctx: &mut Ctx) -> Result<(), String> {
                     }
                     chunks.push(run);
                     for pulls in [vec![], vec![true, false]] {
-                        let c = super::c14::Case { frames: frames.to_vec(), chunks: chunks.clone(), pulls, salt: comp as u8 };
+                        let c = super::c14::Case { frames: frames.to_vec(), chunks: chunks.clone(), pulls, salt: comp as u8, style: (comp % 4) as u8 };
                         super::c14::check_case(ctx, &c);
                     }
                 }
             }
             // the all-ones composition (1-byte drip) always
-            let c = super::c14::Case { frames: vec![1, 0, 2], chunks: vec![1; 9], pulls: vec![], salt: 7 };
+            let c = super::c14::Case { frames: vec![1, 0, 2], chunks: vec![1; 9], pulls: vec![], salt: 7, style: 0 };
             super::c14::check_case(ctx, &c);
             ctx.sample("miri-tcp", || json!({"frames": [1, 0, 2], "chunks": "1-byte drip + sampled compositions"}));
             ctx.count("miri-shards");
